@@ -55,6 +55,47 @@ theorem errors_same_positions {α β : Type} [DecidableEq β] (f : α → Outcom
   rw [collect_schedule_independent f tasks π hπ]
   simp [List.filterMap_map]
 
+
+/-- **Error records are those of the serial run**: under every completion order the failed evaluations are recorded with the
+    submission index and the arguments (inputs and model fidelity) of the task that failed -/
+theorem error_records_schedule_independent {α β : Type} (f : α → Outcome β) (tasks : List α) (π : List Nat)
+    (hπ : ∀ i, i < tasks.length → i ∈ π) :
+    errorRecords tasks (collect tasks.length (complete f tasks π)) = errorRecords tasks ((serial f tasks).map some) := by
+  rw [collect_schedule_independent f tasks π hπ]
+
+/-- … and every record names a task that did fail, with that task's own arguments -/
+theorem error_record_names_failed_task {α β : Type} (f : α → Outcome β) (tasks : List α) (i : Nat) (t : α)
+    (h : (i, t) ∈ errorRecords tasks ((serial f tasks).map some)) :
+    tasks[i]? = some t ∧ f t = .raised := by
+  unfold errorRecords at h
+  rw [List.mem_filterMap] at h
+  obtain ⟨j, hj, hm⟩ := h
+  rw [List.mem_range] at hj
+  simp only [serial, List.map_map, List.getElem?_map, List.getElem?_eq_getElem hj, Option.map_some, Function.comp] at hm
+  cases hf : f tasks[j] with
+  | ok v => simp [hf] at hm
+  | raised =>
+      simp only [hf, Option.some.injEq, Prod.mk.injEq] at hm
+      obtain ⟨rfl, rfl⟩ := hm
+      exact ⟨List.getElem?_eq_getElem hj, hf⟩
+
+/-- **Parallel sums over indices** (`Component.predict` / `gradient` with an executor): the weighted sum of the per-index
+    interpolants does not depend on the order in which the tasks finish -/
+theorem parallel_sum_schedule_independent {α : Type} (f : α → Outcome Rat) (tasks : List α) (coeffs : List Int) (π : List Nat)
+    (hπ : ∀ i, i < tasks.length → i ∈ π) :
+    weightedSum coeffs (collect tasks.length (complete f tasks π)) = weightedSum coeffs ((serial f tasks).map some) := by
+  rw [collect_schedule_independent f tasks π hπ]
+
+/-- **Whatever is computed from the collected results** — the stored datasets, the error indicators of the candidate scan of
+    `System.refine` and hence the chosen index and the training history — is the serial value -/
+theorem consumer_schedule_independent {α β γ : Type} (f : α → Outcome β) (tasks : List α) (π : List Nat)
+    (hπ : ∀ i, i < tasks.length → i ∈ π) (g : List (Option (Outcome β)) → γ) :
+    g (collect tasks.length (complete f tasks π)) = g ((serial f tasks).map some) := by
+  rw [collect_schedule_independent f tasks π hπ]
+
+example : errorRecords [10, 20, 30] (collect 3 (complete (fun n : Nat => if n = 20 then Outcome.raised else Outcome.ok (n + 1))
+    [10, 20, 30] [2, 0, 1])) = [(1, 20)] := by decide
+
 /-! non-vacuity: three tasks finishing in the order 2, 0, 1 (task 1 raises) -/
 example : collect 3 (complete (fun n : Nat => if n = 20 then Outcome.raised else Outcome.ok (n + 1)) [10, 20, 30] [2, 0, 1]) =
     [some (.ok 11), some .raised, some (.ok 31)] := by decide
